@@ -79,6 +79,18 @@ CHECKS = {
         design="DESIGN.md 5 (C14)",
         technique="TLA+ spec + TLC (table laws) + code->spec trace validation of every conversion",
     ),
+    "C15": dict(
+        engine="tla-config",
+        text="Thresholds.tla defines Normalize(tree, n, nest) on tagged value trees from the documentation (broadcast of scalars/singletons, flat list "
+        "reading in nested mode, rejection of malformed shapes and non-numeric leaves) and Config.tla the documented acceptance rule of evaluation "
+        "and frame configurations. TLC enumerates every tree up to a bound x n x mode checking shape, idempotence, no-pad-no-truncate and "
+        "rejection, and every abstract configuration; each state is realised as a Python value / dictionary and fed to set_thresholds, "
+        "PerceptionEvaluationConfig, SensingEvaluationConfig, CriticalObjectFilterConfig and PerceptionPassFailConfig; values, rejections and the "
+        "lengths of all per-label lists are compared. Exhaustive within the bound.",
+        note="trees: depth <= 2, list length <= 2 (quick) / 3 (thorough), leaves {1, 2, non-numeric}; any exception counts as rejection; one known finding (unknown key accepted)",
+        design="DESIGN.md 5 (C15)",
+        technique="TLA+ spec + TLC exhaustive; spec->code replay of every enumerated state",
+    ),
     "C20": dict(
         engine="tla-enums",
         text="Enums.tla defines Parse(enum, member table, spelling) over byte sequences with the documented case folding (FrameID, label policy) and "
